@@ -37,8 +37,10 @@ Definition obs_ok (s : st) (o : obs) : bool :=
   | OGratN a n => N.eqb (N.of_nat (length (gratuitous s a))) n
   | OName n b => Bool.eqb (announce_name s n) b
   | OArp intf mac op dst tha t d replied =>
-      drop_eqb (arp_process_frame s intf mac (mk_arp_frame dst op tha t)) d && Bool.eqb replied (drop_eqb d DNone)
-  | ONdp intf ns ll t d => drop_eqb (ndp_process s intf ns ll t) d
+      (* any label among the applicable reasons; answered iff there is none (C13_arp_label_free) *)
+      let f := mk_arp_frame dst op tha t in
+      admissible (arp_reasons s intf mac (f_op f) (f_eth_dst f) (f_target f)) d && Bool.eqb replied (drop_eqb d DNone)
+  | ONdp intf ns ll t d => admissible (ndp_reasons s intf ns ll t) d
   end.
 
 Record acase := mk_acase { c_id : N; c_arps : list N; c_ndps : list N;
@@ -72,8 +74,15 @@ Record tcase := mk_tcase { tc_id : N; tc_arps : list N; tc_ndps : list N;
 Fixpoint states (s : st) (us : list upd) : list st :=
   s :: match us with [] => [] | u :: r => states (apply_upd s u) r end.
 
+(* a responder's drop label: any admissible one; everything else: the model's answer *)
+Definition answer_ok (s : st) (q : query) (a : answer) : bool :=
+  match q, a with
+  | QArp intf mac op dst t, ADrop d => admissible (arp_reasons s intf mac op dst t) d
+  | QNdp intf ns ll t, ADrop d => admissible (ndp_reasons s intf ns ll t) d
+  | _, _ => answer_eqb (ask s q) a
+  end.
 Definition explained (sts : list st) (r : treq) : bool :=
-  existsb (fun s => answer_eqb (ask s (t_q r)) (t_ans r))
+  existsb (fun s => answer_ok s (t_q r) (t_ans r))
           (firstn (t_hi r - t_lo r + 1) (skipn (t_lo r) sts)).
 
 Definition tcase_ok (c : tcase) : bool :=
